@@ -26,6 +26,9 @@ type Flow struct {
 	Fn   *Func
 	G    *cfg.CFG
 	swOf map[*ast.CaseClause]ast.Stmt
+	// deadAfter: the "after case" block of the last communicating clause of a
+	// select without default is never entered (one clause is always taken)
+	deadAfter map[*ast.CommClause]bool
 	// unstable names: assigned inside a nested function literal or
 	// address-taken; facts about them die at every call.
 	unstable map[string]bool
@@ -94,6 +97,23 @@ func (pr *Prog) Flow(fn *Func) *Flow {
 		case *ast.TypeSwitchStmt:
 			for _, c := range s.Body.List {
 				fl.swOf[c.(*ast.CaseClause)] = s
+			}
+		case *ast.SelectStmt:
+			hasDefault := false
+			var last *ast.CommClause
+			for _, c := range s.Body.List {
+				cc := c.(*ast.CommClause)
+				if cc.Comm == nil {
+					hasDefault = true
+				} else {
+					last = cc
+				}
+			}
+			if !hasDefault && last != nil {
+				if fl.deadAfter == nil {
+					fl.deadAfter = map[*ast.CommClause]bool{}
+				}
+				fl.deadAfter[last] = true
 			}
 		case *ast.FuncLit:
 			ast.Inspect(s.Body, func(m ast.Node) bool {
@@ -706,6 +726,11 @@ func (fl *Flow) Walk(start Loc, x0 string, f0 Facts, v Visitor) {
 		}
 		cond := fl.edgeCond(b)
 		for si, succ := range b.Succs {
+			if succ.Kind == cfg.KindSelectAfterCase {
+				if cc, ok := succ.Stmt.(*ast.CommClause); ok && fl.deadAfter[cc] {
+					continue
+				}
+			}
 			tr := it.tr
 			altFacts := []Facts{facts}
 			if len(b.Succs) == 2 {
